@@ -15,11 +15,12 @@ func TestC17(t *testing.T) {
 		StallS: 120,
 		Meta: map[string]any{
 			"components": map[string]string{
-				"p2p/discover (udp read loop, packet decoding, table, bonding)":                                                              "real, on a simulated datagram network",
-				"p2p.Server, RLPx transport (ECIES handshake, framing, MACs, snappy), peer read/ping loops":                                  "real, two complete servers joined by SetupConn over in-memory connections with a fault-injecting link",
-				"aqua.ProtocolManager sub-protocol handler (status handshake, every message code), downloader/fetcher hooks, tx pool, chain": "real, attacker speaks over p2p.MsgPipe",
-				"sockets, NAT, dial scheduler, discovery bootstrap":                                                                          "stub / not started",
-				"clock (handshake, frame, reply and expiration timeouts)":                                                                    "synctest fake clock",
+				"p2p/discover (udp read loop, packet decoding, table, bonding)":                                                                                    "real, on a simulated datagram network",
+				"p2p.Server, RLPx transport (ECIES handshake, framing, MACs, snappy), peer read/ping loops":                                                        "real, two complete servers joined by SetupConn over in-memory connections with a fault-injecting link",
+				"aqua.ProtocolManager sub-protocol handler (status handshake, every message code), downloader/fetcher hooks, tx pool, chain":                       "real, attacker speaks over p2p.MsgPipe",
+				"aqua/downloader (full sync: ancestor search, skeleton and fill of the header download, body fetch, import into a real chain on a simulated disk)": "real; the peer is the simulator's (serves the oracle node's chain, lies about chosen requests), deliveries arrive on their own goroutine after the link latency",
+				"sockets, NAT, dial scheduler, discovery bootstrap":                                                                                                "stub / not started",
+				"clock (handshake, frame, reply and expiration timeouts)":                                                                                          "synctest fake clock",
 			},
 			"assumptions": []string{
 				"a panic on one of the node's own goroutines kills the worker process; the driver turns the plan that was executing into the replay file of a process-crash violation",
